@@ -193,10 +193,10 @@ type Delivery struct {
 // Fault is one concrete injected fault. Which fields matter depends on Kind.
 type Fault struct {
 	Kind   string `json:"kind"`
-	Off    int64  `json:"off,omitempty"`   // byte offset / truncation length / read-error position
-	Bit    int    `json:"bit,omitempty"`   // bit within byte for bit_flip
-	Call   int    `json:"call,omitempty"`  // sink write call index / seek call index
-	Accept int    `json:"accept,omitempty"`// bytes accepted by a short write
+	Off    int64  `json:"off,omitempty"`    // byte offset / truncation length / read-error position
+	Bit    int    `json:"bit,omitempty"`    // bit within byte for bit_flip
+	Call   int    `json:"call,omitempty"`   // sink write call index / seek call index
+	Accept int    `json:"accept,omitempty"` // bytes accepted by a short write
 	Sticky bool   `json:"sticky,omitempty"`
 	Perm   bool   `json:"perm,omitempty"`
 	Bytes  []byte `json:"bytes,omitempty"` // overwrite content
